@@ -284,7 +284,7 @@ def rule_sudoku(F, R):
         if okh:
             a0 = root_var(h['args'][0]) if h['args'] else None
             loopvar = [v for v, s in cx.names.items() if s == st[0]]
-            okh = a0 in loopvar and h['text'].strip() == '_{}_is_{} &'
+            okh = a0 in loopvar and __import__('engine_l').tokenize_text(__import__('engine_t').tokenizer_pattern(F.lib())[0], h['text']) == ['VAR:_ARG_is_ARG', 'And']
             why = 'the hint must name the cell by the loop index'
         if okh:
             conds = h['conds']
@@ -322,9 +322,13 @@ def classify(F, c, em, gcx):
     cx.names[p[0]['var']] = 'm'
     tup = [x for x in walk(ct['body']) if x['k'] == 'Tuple' and len(x['fields']) == 2]
     txt = template_text(ct['body'])
-    if len(tup) != 1 or txt != '_{}_is_{}': raise UUndec('list member is not formatted as _<cell>_is_<number> (template %r)' % txt)
+    import engine_l
+    from engine_t import tokenizer_pattern
+    pat = tokenizer_pattern(F.lib())[0]
+    if pat is None: raise UUndec('tokenizer pattern not found')
+    if len(tup) != 1 or engine_l.tokenize_text(pat, txt) != ['VAR:_ARG_is_ARG']: raise UUndec('list member is not formatted as the single variable _<cell>_is_<number> (template %r)' % txt)
     if em['sep'] != [', ']: raise UUndec('list members must be joined by ", "')
-    if em['text'].strip() != '[{}] = 1 &': raise UUndec('list must be emitted as `[..] = 1 &`, got %r' % em['text'])
+    if engine_l.tokenize_text(pat, em['text']) != ['OpenSquare', 'VAR:ARG', 'CloseSquare', 'Eq', 'NUM:1', 'And']: raise UUndec('list must be emitted as `[..] = 1 &`, got %r' % em['text'])
     cell = poly_of(tup[0]['fields'][0], cx)
     num = poly_of(tup[0]['fields'][1], cx)
     mlo, mhi = em['range']
